@@ -1,0 +1,47 @@
+//go:build verif
+
+package headers
+
+import (
+	"net/http"
+	"time"
+)
+
+// Verification hooks (build tag "verif" only) for the freshness / storability decision.
+
+// VerifFreshDecision is what ParseHeaderDirective + ShouldCache + GetExpiresOrDefault
+// decide for one response header set under one cache policy.
+type VerifFreshDecision struct {
+	CCPresent  bool
+	NoCache    bool
+	MaxAge     time.Duration
+	ExpPresent bool
+	Expires    time.Time
+	Should     bool
+	ExpiresAt  time.Time // result of GetExpiresOrDefault
+	Before     time.Time // clock reading just before the decision
+	After      time.Time // clock reading just after the decision
+	Panicked   bool
+}
+
+// VerifDecideFresh runs the real decision functions on a response header set.
+func VerifDecideFresh(h http.Header, ignoreCacheControl, forceDefault bool, defaultMaxAge time.Duration) (d VerifFreshDecision) {
+	defer func() {
+		if r := recover(); r != nil {
+			d.Panicked = true
+		}
+	}()
+	d.Before = time.Now()
+	hd := ParseHeaderDirective(h)
+	if hd.CacheControl.IsPresent() {
+		cc := hd.CacheControl.Value()
+		d.CCPresent, d.NoCache, d.MaxAge = true, cc.noCache, cc.maxAge
+	}
+	if hd.Expires.IsPresent() {
+		d.ExpPresent, d.Expires = true, hd.Expires.Value()
+	}
+	d.Should = hd.ShouldCache(ignoreCacheControl)
+	d.ExpiresAt = hd.GetExpiresOrDefault(forceDefault, defaultMaxAge)
+	d.After = time.Now()
+	return d
+}
